@@ -1,7 +1,7 @@
-\* simulation: random behaviours that end, exported as fault schedules (KeepHist)
+\* simulation: random behaviours with benign faults only (short reads, fetch errors, quota replies), exported as fault schedules (KeepHist)
 CONSTANTS
   MaxIdx = 6
-  FaultKinds = {"short", "fetchErr", "quota", "fatal", "rootErr", "sthErr", "consErr", "cancel", "revoke"}
+  FaultKinds = {"short", "fetchErr", "quota", "cancel"}
   KeepHist = TRUE
   SrcSizes = {2, 3, 4}
   Growths = {0, 1, 2}
